@@ -6,8 +6,8 @@ CONSTANTS
   MaxLen = 1
   Latests = {0}
   Rule = 127
-  Seed = FALSE
-  EarliestLow = FALSE
+  Seed = TRUE
+  EarliestLow = TRUE
   Guard = TRUE
   Tendermint = FALSE
   ZeroOk = FALSE
